@@ -254,6 +254,11 @@ def classify(cells, src):
         tcls = next((t for t in toks if t in classes), None)
         W, esc = src.writes(var, eligible, skip, is_object=bool(tcls) and '*' not in toks)
         row['stateless'] = bool(tcls) and c['size'] <= 8 and '*' not in toks and not row['atomic']
+        STD_MUTATED = {'mt19937', 'mt19937_64', 'default_random_engine', 'minstd_rand', 'minstd_rand0', 'ranlux24', 'ranlux48', 'knuth_b', 'vector', 'map', 'unordered_map',
+                       'set', 'unordered_set', 'string', 'deque', 'list', 'stringstream', 'ostringstream', 'istringstream'}
+        if esc and 'const' not in toks and not row['atomic'] and any(t in STD_MUTATED for t in toks):
+            # handed out by (non-const) address / reference: every caller draws from / stores into it
+            for i in esc: W.setdefault(i, []).append('hands out a non-const reference')
         row['writers'] = sorted('%s [%s]' % (src.fname(src.funcs[i]), ','.join(sorted(set(p)))) for i, p in W.items())
         row['writers_reachable'] = sorted(src.fname(src.funcs[i]) for i in W if i in src.reentrant_reach)
         # a shared singleton handed out by address: its `mutable` members can be written through a pointer-to-const
@@ -396,6 +401,7 @@ def gen_program(rng, kind, nshared, nops, use_spq=False, nfresh=0):
             dst = rng.randrange(nslots)
             ops.append('%s P%d %s %s %r' % (rng.choice(BG), dst, operand(sh_ok), operand(sh_ok), 0.5))
             if dst not in live: live.append(dst)
+        elif r < 0.845: ops.append('%s %s %s %r' % (rng.choice(['setprec', 'unionprec', 'interprec', 'diffprec', 'uunionprec']), operand(sh_ok), operand(sh_ok), rng.choice([0.01, 0.5, 1.0])))
         elif r < 0.87: ops.append('prepq %s %s' % (operand(sh_ok), operand(sh_ok)))
         elif r < 0.90 and sh_ok and nshared and use_spq: ops.append('spq %s' % operand(True))
         elif r < 0.93: ops.append('tree %s' % operand(sh_ok))
